@@ -51,16 +51,12 @@ def _pipeline_info(pipe, data, context, former_data=None):
         outputs = []
         for _, model, vs in pipe.transformers:
             if all(map(lambda o: isinstance(o, int), vs)):
-                new_data = []
                 if isinstance(data, OrderedDict):
-                    new_data = [_[1] for _ in data.items()]
+                    cols = [_[1] for _ in data.items()]
                 else:
-                    mx = max(vs)
-                    while len(new_data) < mx:
-                        if len(data) > len(new_data):
-                            new_data.append(data[len(new_data)])
-                        else:
-                            new_data.append(data[-1])
+                    cols = list(data)
+                # a previous step may stand for several columns with one name
+                new_data = [cols[min(v, len(cols) - 1)] for v in vs]
             else:
                 new_data = OrderedDict()
                 for v in vs:
